@@ -63,6 +63,18 @@ func (w *verifLocked) String() string {
 	return w.b.String()
 }
 
+// verifSend: a broadcast must come back whatever the clients do
+func verifSend(h *Handler, data string) bool {
+	done := make(chan struct{})
+	go func() { h.Send("message", data); close(done) }()
+	select {
+	case <-done:
+		return true
+	case <-time.After(3 * time.Second):
+		return false
+	}
+}
+
 func TestVerifReplayC19(t *testing.T) {
 	for round := 1; round <= 5; round++ {
 		h := New()
@@ -79,8 +91,14 @@ func TestVerifReplayC19(t *testing.T) {
 			return
 		}
 		// two broadcasts while the client is stalled: their delivery is pending
-		h.Send("message", "reload-1")
-		h.Send("message", "reload-2")
+		if !verifSend(h, "reload-1") {
+			fmt.Println("REPLAY-CONFIRMED a client is stalled in its Write: the broadcast reload-1 does not return within 3 s - a stalled client blocks the broadcaster")
+			return
+		}
+		if !verifSend(h, "reload-2") {
+			fmt.Println("REPLAY-CONFIRMED a client is stalled in its Write: the broadcast reload-2 does not return within 3 s - a stalled client blocks the broadcaster")
+			return
+		}
 		time.Sleep(100 * time.Millisecond)
 		fmt.Printf("round %d: client stalled, 2 broadcasts pending, now the client's write fails\n", round)
 		close(w.release)
@@ -93,7 +111,10 @@ func TestVerifReplayC19(t *testing.T) {
 		}
 		cancel()
 		// a broadcast after the client is gone, and time for pending deliveries to run into the closed channel
-		h.Send("message", "reload-3")
+		if !verifSend(h, "reload-3") {
+			fmt.Println("REPLAY-CONFIRMED a client is stalled in its Write: the broadcast reload-3 does not return within 3 s - a stalled client blocks the broadcaster")
+			return
+		}
 		time.Sleep(200 * time.Millisecond)
 	}
 	// clients that leave by cancelling their request, with a broadcast in flight
